@@ -112,7 +112,7 @@ TAGLIKE = re.compile(r"..:.:.*", re.S)
 
 
 class Rec:
-    __slots__ = ("rt", "pos", "tags", "version", "raw")
+    __slots__ = ("rt", "pos", "tags", "version", "raw", "uid")
 
     def __init__(self, rt, pos, tags, version=None, raw=None):
         self.rt = rt
